@@ -511,7 +511,7 @@ func (bp *boundsProver) proveLen(v ssa.Value, x ssa.Value, goal relGoal, at ssa.
 		if !ce.Val {
 			op = negateOp(op)
 		}
-		if bo.X == v || sameLenCall(bo.X, v) {
+		if bo.X == v || sameLenCall(bo.X, v) || sameArith(bo.X, v, 0) {
 			if ly, ok := lenOf(bo.Y); ok && bp.sameSeq(ly, x) && bp.loadStable(ly, x, at) {
 				if op == token.LSS || (op == token.LEQ && goal == leLen) {
 					return true
@@ -631,7 +631,7 @@ func (bp *boundsProver) proveLenOnEdge(v, x ssa.Value, goal relGoal, last ssa.In
 			if !val {
 				op = negateOp(op)
 			}
-			if bo.X == v {
+			if bo.X == v || sameArith(bo.X, v, 0) {
 				if ly, ok := lenOf(bo.Y); ok && bp.sameSeq(ly, x) {
 					if op == token.LSS || (op == token.LEQ && goal == leLen) {
 						return true
@@ -786,6 +786,9 @@ func (bp *boundsProver) geZero(v ssa.Value, atBlock *ssa.BasicBlock, seen map[ss
 	}
 	if k, ok := constInt(v); ok {
 		return k >= 0
+	}
+	if lo, _, ok := bp.paramConstRange(v); ok {
+		return lo >= 0
 	}
 	if _, ok := lenOf(v); ok {
 		return true
@@ -942,6 +945,9 @@ func (bp *boundsProver) ubConst(v ssa.Value, k int64, atBlock *ssa.BasicBlock, e
 	}
 	if c, ok := constInt(v); ok {
 		return c <= k
+	}
+	if _, hi, ok := bp.paramConstRange(v); ok {
+		return hi <= k
 	}
 	if rx := rangeIndexSeq(v); rx != nil {
 		if n, ok := bp.constLen(rx); ok && n-1 <= k {
@@ -1369,6 +1375,43 @@ func (bp *boundsProver) indexMapLemma(idx, seq ssa.Value, at ssa.Instruction) bo
 	return n > 0 && !hasDelete(fn, m)
 }
 
+// paramConstRange: v is a parameter of a module function (or local closure) that every call site passes a constant
+// for: the smallest and largest of them.
+func (bp *boundsProver) paramConstRange(v ssa.Value) (lo, hi int64, ok bool) {
+	prm, isPrm := v.(*ssa.Parameter)
+	if !isPrm || prm.Parent() == nil {
+		return 0, 0, false
+	}
+	idx := paramIndex(prm)
+	callers := bp.c.P.Callers(prm.Parent())
+	if idx < 0 || len(callers) == 0 {
+		return 0, 0, false
+	}
+	first := true
+	for _, e := range callers {
+		args := e.Site.Common().Args
+		if idx >= len(args) {
+			return 0, 0, false
+		}
+		k, isC := args[idx].(*ssa.Const)
+		if !isC || k.Value == nil {
+			return 0, 0, false
+		}
+		kv, isInt := constInt(k)
+		if !isInt {
+			return 0, 0, false
+		}
+		if first || kv < lo {
+			lo = kv
+		}
+		if first || kv > hi {
+			hi = kv
+		}
+		first = false
+	}
+	return lo, hi, !first
+}
+
 // indexMapLemmaField: the index map is kept in an unexported field of a bookkeeping object (only ever made fresh by
 // the module) and filled by a method `record(.., index)`; every value ever stored in it is, at the call that passes it,
 // len(s) immediately followed by s = append(s, one element), inside the loop that builds s; the sequence indexed is
@@ -1686,6 +1729,34 @@ func localFieldMake(x ssa.Value, at ssa.Instruction) *ssa.MakeSlice {
 }
 
 // sameLenCall: two len() calls on the identical SSA value (slices and strings are values: equal operand, equal length).
+// sameArith: two arithmetic expressions over the very same SSA values (a + b written twice: go/ssa does not merge
+// them): equal whenever both are defined.
+func sameArith(a, b ssa.Value, d int) bool {
+	if a == b {
+		return true
+	}
+	if d > 3 {
+		return false
+	}
+	x, ok1 := a.(*ssa.BinOp)
+	y, ok2 := b.(*ssa.BinOp)
+	if !ok1 || !ok2 || x.Op != y.Op {
+		return false
+	}
+	switch x.Op {
+	case token.ADD, token.SUB, token.MUL:
+	default:
+		return false
+	}
+	if sameArith(x.X, y.X, d+1) && sameArith(x.Y, y.Y, d+1) {
+		return true
+	}
+	if x.Op != token.SUB && sameArith(x.X, y.Y, d+1) && sameArith(x.Y, y.X, d+1) {
+		return true
+	}
+	return false
+}
+
 func sameLenCall(a, b ssa.Value) bool {
 	la, ok1 := lenOf(a)
 	lb, ok2 := lenOf(b)
